@@ -14,7 +14,8 @@ for d in sorted(glob.glob(HERE + "/seeded/*/")):
     own = [x for x in det if x["check"] == prop]
     others = sorted(set(x["check"] for x in det if x["check"] != prop))
     und = m.get("undecided_in") or []
-    if own: st = "CAUGHT"
+    if m.get("stale"): st = "superseded (" + (m.get("last_status") or "?") + ")"
+    elif own: st = "CAUGHT"
     elif prop in und: st = "UNDECIDED"
     elif det: st = "caught by other checks only"
     elif m.get("checked_against"): st = "MISSED"
